@@ -36,21 +36,23 @@ type Obligation struct {
 	Fn     string
 	Pos    string
 	// result
-	Status      string // unsat sat unknown timeout static
-	Solver      string
-	Time        float64
-	Model       string
-	SMTLen      int
-	Cover       bool // must be satisfiable (vacuity guard)
-	smtFile     string
-	allSolvers  map[string]string
-	contract    *Contract
-	clause      *Clause
-	script      string
-	scriptQF    string
-	scriptAbs   string
-	inputs      []*inputNode
-	candidateQF bool
+	Status       string // unsat sat unknown timeout static
+	Solver       string
+	Time         float64
+	Model        string
+	SMTLen       int
+	Cover        bool // must be satisfiable (vacuity guard)
+	smtFile      string
+	allSolvers   map[string]string
+	contract     *Contract
+	clause       *Clause
+	script       string
+	scriptQF     string
+	scriptAbs    string
+	scriptFull   string
+	knownFinding bool
+	inputs       []*inputNode
+	candidateQF  bool
 }
 
 type ModelFn func(c *CallCtx) *Term
@@ -64,6 +66,8 @@ type Engine struct {
 	heapBound   map[string]*Term
 	loadedFacts map[int]bool
 	assumes     []*Term
+	assumePCs   []*Term // path condition under which assumes[i] was made
+	discovery   []*discoveryLevel
 	dirty       map[string]bool
 	quiet       int
 	obls        []*Obligation
@@ -143,9 +147,18 @@ func (e *Engine) assumeGlobal(t *Term) {
 		return
 	}
 	e.assumes = append(e.assumes, t)
+	e.assumePCs = append(e.assumePCs, True)
 }
 
-func (e *Engine) assume(pc, t *Term) { e.assumeGlobal(Implies(pc, t)) }
+// assume records a fact that holds on the paths satisfying pc.
+func (e *Engine) assume(pc, t *Term) {
+	g := Implies(pc, t)
+	if g.IsTrue() {
+		return
+	}
+	e.assumes = append(e.assumes, g)
+	e.assumePCs = append(e.assumePCs, pc)
+}
 
 // axiom adds a permanent, path-independent fact (never rolled back).
 func (e *Engine) axiom(t *Term) {
@@ -586,18 +599,23 @@ func (e *Engine) runLoop(fr *Frame, li *loopInfo, edgesIn []edge) map[*ssa.Basic
 
 	// discovery of the components written by the body
 	dirty := map[string]bool{}
+	oldWrites := map[string]bool{}
 	for round := 0; round < 4; round++ {
 		saveAss := len(e.assumes)
 		saveDirty := e.dirty
 		e.dirty = map[string]bool{}
 		e.quiet++
-		stD := e.havocFor(fr, stIn, phis, dirty, li)
+		stD := e.havocFor(fr, stIn, phis, dirty, li, nil)
 		nDef := len(fr.defers)
 		nRet := len(fr.rets)
+		lvl := &discoveryLevel{base: e.comp(stD, allocComp), oldWrites: oldWrites}
+		e.discovery = append(e.discovery, lvl)
 		func() {
 			defer func() {
+				e.discovery = e.discovery[:len(e.discovery)-1]
 				e.quiet--
 				e.assumes = e.assumes[:saveAss]
+				e.assumePCs = e.assumePCs[:saveAss]
 				fr.defers = fr.defers[:nDef]
 				fr.rets = fr.rets[:nRet]
 			}()
@@ -618,7 +636,7 @@ func (e *Engine) runLoop(fr *Frame, li *loopInfo, edgesIn []edge) map[*ssa.Basic
 			break
 		}
 	}
-	stH := e.havocFor(fr, stIn, phis, dirty, li)
+	stH := e.havocFor(fr, stIn, phis, dirty, li, oldWrites)
 	e.assumeInvariants(fr, li, invs, stH, pcIn)
 	nDef := len(fr.defers)
 	exits, backs := e.runRegion(fr, li.rpo, map[*ssa.BasicBlock][]edge{li.header: {{pc: pcIn, st: stH}}}, li.header)
@@ -647,7 +665,7 @@ func (e *Engine) runLoop(fr *Frame, li *loopInfo, edgesIn []edge) map[*ssa.Basic
 	return exitsAcc
 }
 
-func (e *Engine) havocFor(fr *Frame, stIn *State, phis []*ssa.Phi, dirty map[string]bool, li *loopInfo) *State {
+func (e *Engine) havocFor(fr *Frame, stIn *State, phis []*ssa.Phi, dirty map[string]bool, li *loopInfo, oldWrites map[string]bool) *State {
 	stH := stIn.clone()
 	var ks []string
 	for k := range dirty {
@@ -671,6 +689,22 @@ func (e *Engine) havocFor(fr *Frame, stIn *State, phis []*ssa.Phi, dirty map[str
 	for _, k := range ks {
 		if k != allocComp {
 			e.heapBound[stH.comps[k].SVal] = e.comp(stH, allocComp)
+		}
+	}
+	// components that the body writes only at objects it allocated itself keep
+	// their contents for all older objects
+	if oldWrites != nil {
+		entryAlloc := e.comp(stIn, allocComp)
+		for _, k := range ks {
+			srt := e.compSortOf(k)
+			if k == allocComp || oldWrites[k] || srt.Kind != "array" || srt.Key != LocS || !(strings.HasPrefix(k, "H:") || strings.HasPrefix(k, "E:") || strings.HasPrefix(k, "C:")) {
+				continue
+			}
+			f := stH.comps[k]
+			old := e.comp(stIn, k)
+			// used syntactically by Select (no quantified frame axiom: it slows
+			// every query of the function down)
+			frozenBelow[f.id] = frozen{old: old, bound: entryAlloc}
 		}
 	}
 	for _, phi := range phis {
@@ -919,7 +953,13 @@ func (e *Engine) execInstr(fr *Frame, ins ssa.Instruction, st *State, pc *Term) 
 		x := e.value(fr, st, in.X)
 		switch in.Op {
 		case token.MUL:
-			st.vals[in] = e.loadPtr(rd, in.Type(), x)
+			src := rd
+			if rd != st && fr.oldSt != nil && KnownGe(LocObj(x), e.comp(fr.oldSt, allocComp)) {
+				// a cell created while evaluating the clause (a captured
+				// variable): it does not exist in the old state
+				src = st
+			}
+			st.vals[in] = e.loadPtr(src, in.Type(), x)
 		case token.NOT:
 			st.vals[in] = Not(x)
 		case token.SUB:
@@ -1010,6 +1050,7 @@ func (e *Engine) execInstr(fr *Frame, ins ssa.Instruction, st *State, pc *Term) 
 		v := e.value(fr, st, in.Value)
 		mt := in.Map.Type().Underlying().(*types.Map)
 		e.frameCheckObj(fr, in, st, pc, m, "map")
+		e.storeAsserts(fr, in, st, pc, m, k, v)
 		e.mapUpdate(st, mt, m, k, v)
 	case *ssa.Lookup:
 		x := e.value(fr, st, in.X)
@@ -1680,4 +1721,43 @@ func (e *Engine) runDefers(fr *Frame, st *State, pc *Term) *Term {
 		}
 	}
 	return pc
+}
+
+// storeAsserts checks the `storeassert` clauses of the function under
+// verification before a map update (also in inlined callees), for maps whose
+// type matches the declared `onstore` parameter list.
+func (e *Engine) storeAsserts(fr *Frame, in *ssa.MapUpdate, st *State, pc *Term, m, k, v *Term) {
+	ct := e.topContract
+	if ct == nil || len(ct.OnStore) == 0 || fr.clause || e.quiet > 0 {
+		return
+	}
+	probe := ct.OnStore[0].Fn
+	if probe == nil {
+		return
+	}
+	np := len(probe.Params)
+	if np < 3 || typeKey(probe.Params[np-3].Type()) != typeKey(in.Map.Type()) {
+		return
+	}
+	// arguments: the verified function's parameters (entry values), then m, key, val
+	var args []*Term
+	top := fr
+	for top.caller != nil {
+		top = top.caller
+	}
+	for _, p := range top.fn.Params {
+		args = append(args, top.entrySt.vals[p])
+	}
+	args = append(args, m, k, v)
+	if len(args) != np {
+		return
+	}
+	site := fmt.Sprintf("%s#%d", shortFn(fr.fn), e.ordinal(fr.fn, in))
+	for _, cl := range ct.OnStore {
+		saved := cl.Kind
+		cl.Kind = "invariant"
+		g := e.evalClause(fr, cl, args, nil, st, top.entrySt, pc)
+		cl.Kind = saved
+		e.addObl(fr, "store", fmt.Sprintf("%s@%s", cl.Label, site), cl.Props, pc, g, e.posOf(fr, in))
+	}
 }
